@@ -15,7 +15,7 @@ import datetime
 import json
 import os
 
-from C06_build import (D, P, R, X, KEYS, UNITS, decide_real, fields, frozenmapping, install_structural_hash, mk_cats,
+from C06_build import (D, P, R, X, KEYS, decide_real, frozenmapping, install_structural_hash, mk_cats,
                        mk_col, mk_di, mk_est, mk_opts, mk_param, mk_params, mk_sim, mk_steps, mk_strs, mk_vh, mk_vl,
                        reachable, same_fields, small, snapshot, unchanged)
 from pharmpy.workflows.log import LogEntry
